@@ -30,6 +30,7 @@ CONSTANTS
     Origin,     \* Item -> Node: where the item is accepted first
     MaxDup,     \* how many duplicate deliveries the network may make
     MaxForge,   \* how many forged messages the adversary may send
+    MaxExpire,  \* how many times a node's recent-hash memory may lapse (the 20 s window passing)
     AllowPoison \* whether the adversary may also forge ITEMS: announce a known item's hash with corrupted content.
                 \* The recent-hash memory is written before the content is verified, so the honest copy that arrives
                 \* later is dropped as a repeat (finding F14).  C12 quantifies over forged LISTS; the action is kept
@@ -45,9 +46,10 @@ VARIABLES
     seen,       \* messages already delivered once (candidates for duplication)
     sent,       \* Node -> Item -> number of forwarding rounds
     orig,       \* items already originated
-    ndup, nforge
+    ndup, nforge,
+    nexp        \* Node -> how many times the recent-hash memory of the node has lapsed
 
-vars == <<peers, flash, adm, admc, parked, msgs, seen, sent, orig, ndup, nforge>>
+vars == <<peers, flash, adm, admc, parked, msgs, seen, sent, orig, ndup, nforge, nexp>>
 
 NoItem == "none"
 Honest == Node \ Bad
@@ -73,7 +75,7 @@ Init ==
     /\ parked = [n \in Node |-> {}]
     /\ msgs = {} /\ seen = {} /\ orig = {}
     /\ sent = [n \in Node |-> [i \in Item |-> 0]]
-    /\ ndup = 0 /\ nforge = 0
+    /\ ndup = 0 /\ nforge = 0 /\ nexp = [n \in Node |-> 0]
 
 ParentKnown(n, i) == Parent[i] = NoItem \/ Parent[i] \in adm[n]
 
@@ -88,7 +90,7 @@ Originate(i) ==
     /\ LET gs == {Entry(n, n, i)} IN
        msgs' = msgs \cup {Msg(n, p, i, gs) : p \in peers[n]}
     /\ sent' = [sent EXCEPT ![n][i] = @ + 1]
-    /\ UNCHANGED <<peers, flash, parked, seen, ndup, nforge>>
+    /\ UNCHANGED <<peers, flash, parked, seen, ndup, nforge, nexp>>
 
 \* the handler's effect on a message taken out of `pool` (the in-flight set, or the in-flight set plus a redelivered copy)
 ReceiveIn(m, pool) ==
@@ -128,7 +130,7 @@ ReceiveIn(m, pool) ==
                     /\ msgs' = rest \cup fwd
                     /\ sent' = [sent EXCEPT ![n][i] = @ + 1]
                     /\ UNCHANGED parked
-    /\ UNCHANGED <<peers, orig, nforge>>
+    /\ UNCHANGED <<peers, orig, nforge, nexp>>
 
 Receive(m) == m \in msgs /\ ReceiveIn(m, msgs) /\ UNCHANGED ndup
 \* a duplicate delivered straight away (used by trace validation, where the copy never rests in flight)
@@ -139,14 +141,14 @@ Absorb(m) ==
     /\ m \in msgs /\ m.to \in Bad
     /\ msgs' = msgs \ {m}
     /\ seen' = seen \cup {m}
-    /\ UNCHANGED <<peers, flash, adm, admc, parked, sent, orig, ndup, nforge>>
+    /\ UNCHANGED <<peers, flash, adm, admc, parked, sent, orig, ndup, nforge, nexp>>
 
 \* the network delivers an already delivered message once more
 Duplicate(m) ==
     /\ m \in seen /\ m \notin msgs /\ ndup < MaxDup
     /\ msgs' = msgs \cup {m}
     /\ ndup' = ndup + 1
-    /\ UNCHANGED <<peers, flash, adm, admc, parked, seen, sent, orig, nforge>>
+    /\ UNCHANGED <<peers, flash, adm, admc, parked, seen, sent, orig, nforge, nexp>>
 
 \* processLackingParent: a node holding a parked vertex fetches the missing parent from a peer that has it
 Pull(n, c) ==
@@ -156,7 +158,7 @@ Pull(n, c) ==
     /\ IF ParentKnown(n, p)
        THEN adm' = [adm EXCEPT ![n] = @ \cup {p}] /\ admc' = [admc EXCEPT ![n][p] = @ + 1] /\ UNCHANGED parked
        ELSE parked' = [parked EXCEPT ![n] = @ \cup {p}] /\ UNCHANGED <<adm, admc>>
-    /\ UNCHANGED <<peers, flash, msgs, seen, sent, orig, ndup, nforge>>
+    /\ UNCHANGED <<peers, flash, msgs, seen, sent, orig, ndup, nforge, nexp>>
 
 \* the ledger's retry loop admits a parked vertex whose parent has arrived (nothing is forwarded)
 Retry(n, c) ==
@@ -164,11 +166,11 @@ Retry(n, c) ==
     /\ adm' = [adm EXCEPT ![n] = @ \cup {c}]
     /\ admc' = [admc EXCEPT ![n][c] = @ + 1]
     /\ parked' = [parked EXCEPT ![n] = @ \ {c}]
-    /\ UNCHANGED <<peers, flash, msgs, seen, sent, orig, ndup, nforge>>
+    /\ UNCHANGED <<peers, flash, msgs, seen, sent, orig, ndup, nforge, nexp>>
 RetryDrop(n, c) ==
     /\ n \in Honest /\ c \in parked[n] /\ c \in adm[n]
     /\ parked' = [parked EXCEPT ![n] = @ \ {c}]
-    /\ UNCHANGED <<peers, flash, adm, admc, msgs, seen, sent, orig, ndup, nforge>>
+    /\ UNCHANGED <<peers, flash, adm, admc, msgs, seen, sent, orig, ndup, nforge, nexp>>
 
 \* ---- adversary ----
 \* what a bad node can put into a list for item i: garbage, its own key under any address, and entries lifted
@@ -189,7 +191,7 @@ Forge(b, t, i, gs) ==
     /\ b \in Bad /\ t \in peers[b] /\ i \in KnownItems(b) /\ nforge < MaxForge
     /\ msgs' = msgs \cup {Msg(b, t, i, gs)}
     /\ nforge' = nforge + 1
-    /\ UNCHANGED <<peers, flash, adm, admc, parked, seen, sent, orig, ndup>>
+    /\ UNCHANGED <<peers, flash, adm, admc, parked, seen, sent, orig, ndup, nexp>>
 
 \* a message whose item hash is that of i but whose content does not verify: the handler marks the hash as seen,
 \* the ledger refuses the content, nothing is admitted or forwarded
@@ -199,9 +201,19 @@ Poison(b, t, i) ==
     /\ i \notin flash[t]
     /\ flash' = [flash EXCEPT ![t] = @ \cup {i}]
     /\ nforge' = nforge + 1
-    /\ UNCHANGED <<peers, adm, admc, parked, msgs, seen, sent, orig, ndup>>
+    /\ UNCHANGED <<peers, adm, admc, parked, msgs, seen, sent, orig, ndup, nexp>>
+
+\* the duplicate-suppression window of node n passes: everything it remembered as seen is forgotten.  A copy that
+\* arrives afterwards is processed again: a vertex is refused by the ledger (it is there) and not forwarded, an awaiting
+\* transaction is signed and forwarded once more (the failed save is only logged)
+FlashExpire(n) ==
+    /\ nexp[n] < MaxExpire /\ flash[n] # {}
+    /\ flash' = [flash EXCEPT ![n] = {}]
+    /\ nexp' = [nexp EXCEPT ![n] = @ + 1]
+    /\ UNCHANGED <<peers, adm, admc, parked, msgs, seen, sent, orig, ndup, nforge>>
 
 Next ==
+    \/ \E n \in Honest : FlashExpire(n)
     \/ \E b \in Bad, t \in Node, i \in Item : Poison(b, t, i)
     \/ \E i \in Item : Originate(i)
     \/ \E m \in msgs : Receive(m) \/ Absorb(m)
@@ -223,7 +235,8 @@ TypeOK == \A m \in msgs : m.to \in peers[m.from]
 \* C11: admitted at most once per node; forwarded at most once per node; never sent to a verified gossiper;
 \* forwarded only by nodes that admitted the item
 C11_AdmittedOnce == \A n \in Honest, i \in Item : admc[n][i] <= 1
-C11_ForwardOnce == \A n \in Honest, i \in Item : sent[n][i] <= 1
+\* a vertex is forwarded at most once, an awaiting transaction at most once per duplicate-suppression window
+C11_ForwardOnce == \A n \in Honest, i \in Item : sent[n][i] <= (IF Kind[i] = "vrx" THEN 1 ELSE 1 + nexp[n])
 C11_NeverToListed == \A m \in msgs : m.from \in Honest => m.to \notin Addrs(Verified(m.gs, m.item))
 C11_ForwardOnlyAfterAccept ==
     [][\A m \in msgs' \ msgs : m.from \in Honest /\ m \notin seen => m.item \in adm'[m.from]]_vars
